@@ -87,3 +87,27 @@ package deputynode
 //@   use mod_wrap(n, int(targetDeputy.Rank))
 //@   use mod_wrap(n, int(targetDeputy.Rank) - int(lastDeputy.Rank))
 //@   use mod_wrap(n, n + int(targetDeputy.Rank) - int(lastDeputy.Rank))
+
+// uint32(math.Ceil(float64(n) * 2.0 / 3.0)) == (2n+2)/3 : proved in the FloatingPoint + BitVector theories on every run
+//@ float_lemma ceil_two_thirds
+//@   props C03
+//@   shape toint:uint32(ceil(div(mul(fromint:int(#0),const:2),const:3)))
+//@   equals (2*leaf0 + 2) / 3
+//@   range 0 <= leaf0 && leaf0 < 65536
+
+//@ func (*Manager).TwoThirdDeputyCount   pure
+//@   props C03
+//@   requires wfManager(m) && cfgOK()
+//@   let n = len(m.GetDeputiesByHeight(height, true))
+//@   requires n < 65536
+//@   ensures int(result) == (2*n + 2) / 3
+//@   nopanic
+
+//@ func (*Manager).GetDeputyByNodeID   pure
+//@   props C03
+//@   requires wfManager(m) && cfgOK()
+//@   let ds = m.GetDeputiesByHeight(height, true)
+//@   ensures result != nil ==> exists(i, 0, len(ds), ds[i] == result) && content(result.NodeID) == content(nodeID)
+//@   ensures result == nil ==> forall(i, 0, len(ds), content(ds[i].NodeID) != content(nodeID))
+//@   invariant @loop 0: 0 <= $k && $k <= len(ds) && forall(i, 0, $k, content(ds[i].NodeID) != content(nodeID))
+//@   nopanic
